@@ -47,6 +47,7 @@ INVARIANT SuccessProbability
 INVARIANT AbsorbingToTerminal
 INVARIANT RewardClause
 INVARIANT ValueIsFixpoint
+INVARIANT ValueAgreesWithMDPOracle
 PROPERTY NeverEntersWall
 PROPERTY OnlyAsCommanded
 PROPERTY TerminalDiscipline
@@ -141,12 +142,12 @@ def gw_cases(rng, tier):
                 add(rows, sp, f"exhaustive-{w}x{h}")
     if tier == "thorough":      # a sample of the 3x2 / 2x3 families (TLC's mc run covers them completely)
         for (w, h) in [(3, 2), (2, 3)]:
-            for _ in range(2500):
+            for _ in range(2000):
                 tiles = [rng.choice(".#gsx") for _ in range(w * h)]
                 tiles[rng.randrange(w * h)] = "s"
                 add(["".join(tiles[r * w:(r + 1) * w]) for r in range(h)], rng.choice(SP_MENU[:4]), f"sample-{w}x{h}")
     # random bigger layouts with every option varied
-    n = 330 if tier == "quick" else 5000
+    n = 420 if tier == "quick" else 4000
     for i in range(n):
         w, h = rng.choice(SIZES[2:])
         style = i % 7
@@ -199,7 +200,7 @@ def dom_cases(rng, tier):
     wp_menu = [(0, 1), (1, 4), (1, 2), (3, 4), (1, 1), (1, 5)]
     cases.append(windy_case(rng, ["@..$"], "default-feature-rewards", fr=None, rep=dict(grid="plain", fr="default", opts="default")))
     cases.append(windy_case(rng, ["@>.", "..$"], "default-feature-rewards", fr=None, rep=dict(grid="plain", fr="default", opts="explicit")))
-    n = 220 if tier == "quick" else 4000
+    n = 264 if tier == "quick" else 3000
     for i in range(n):
         w, h = rng.choice(SIZES[1:])
         style = i % 6
@@ -225,7 +226,7 @@ def dom_cases(rng, tier):
     co_menu = [(0, 1), (1, 2), (19, 20), (1, 1), (3, 4)]
     cases.append(dict(dom="HeavenOrHell", rows=None, CN=19, CD=20, SC=-1, HR=50, LR=-50, GN=19, GD=20, tag="default-grid",
                       rep=dict(opts="default")))
-    n = 110 if tier == "quick" else 2500
+    n = 132 if tier == "quick" else 1500
     for i in range(n):
         w, h = rng.choice(SIZES[1:])
         cn, cd = rng.choice(co_menu)
@@ -618,6 +619,10 @@ class Findings:
     def __init__(self):
         self.violations = []     # (signature, what, extra)
         self.drifts = []         # (step, detail)
+        self.counts = {}
+
+    def count(self, key, n=1):
+        self.counts[key] = self.counts.get(key, 0) + n
 
     def violation(self, sig, what, extra=None):
         self.violations.append((sig, what, extra))
@@ -683,6 +688,7 @@ def judge_gridworld(case, table, d, f):
                 ok = False
                 continue
             ent = d["rows"][si][offered[a]]
+            f.count("gridworld_state_action_pairs_compared")
             real = {}
             rrew = {}
             for (_, t, p, r) in ent:
@@ -760,11 +766,13 @@ def judge_gridworld(case, table, d, f):
     if ok and table["valued"] == 1 and isinstance(vi, dict) and "V" in vi and vi["iterations"] < 19990:
         ncell = W * H
         bound = 1e-10 * ncell * case["SPD"] / case["SPN"]
+        f.count("gridworld_layouts_with_exact_values_compared")
         for k, s in enumerate(exp_states):
             if k == 0 or (k + 1) in walls or table["u"][k] == NOVAL:
                 continue
             v = F(table["u"][k], case["SPN"])
             got = vi["V"][real_index[s]]
+            f.count("gridworld_cell_values_compared")
             if got is None or not math.isfinite(got) or abs(got - float(v)) > bound + TOL * max(1.0, abs(float(v))):
                 ok = False
                 f.violation(f"C20:ValueIteration.plan_on(GridWorld):values-differ-from-exact-optimum:{corner(case)}",
@@ -934,6 +942,7 @@ def judge_domain_dynamics(case, recs, d, f):
             ok = False
             continue
         for row in r["rows"]:
+            f.count("other_domain_state_action_pairs_compared")
             ent = d["rows"][si][offered[tl(row["a"])]]
             real, rrew = {}, {}
             for (_, t, p, rw) in ent:
@@ -1025,12 +1034,18 @@ class Background:
         return self.out["res"]
 
 
-def observe_all(cases):
+def make_pool():
     import multiprocessing as mp
+    return mp.get_context("fork").Pool(8)
+
+
+def observe_all(cases, pool=None):
+    if pool is not None:
+        return pool.map(_observe_worker, cases, chunksize=16)
     if len(cases) < 40:
         return [observe(c) for c in cases]
-    with mp.get_context("fork").Pool(8) as pool:
-        return pool.map(_observe_worker, cases, chunksize=16)
+    with make_pool() as p:
+        return p.map(_observe_worker, cases, chunksize=16)
 
 
 def tlc_gridworld_tables(workdir, gw, workers=6):
@@ -1133,6 +1148,8 @@ def report(ctx, case, f, kind):
         ctx.violation(sig, what, {"kind": kind, "case": case, "extra": extra})
     for (step, detail) in f.drifts:
         ctx.drift(step, detail)
+    for k, n in f.counts.items():
+        ctx.count(k, n)
 
 
 def judge_all(ctx, gw, doms, *, dumps=None, tables=None, dtables=None, crosscheck=True):
@@ -1191,16 +1208,27 @@ def mc_families(tier):
     sps = [[0, 1], [1, 2], [4, 5], [1, 1]]
     fams = [dict(W=w, H=h, alpha=full, sps=sps) for (w, h) in [(1, 1), (2, 1), (1, 2), (3, 1), (1, 3), (2, 2), (4, 1), (1, 4)]]
     if tier == "thorough":
-        fams += [dict(W=3, H=2, alpha=full, sps=sps), dict(W=2, H=3, alpha=full, sps=sps),
-                 dict(W=3, H=3, alpha=[".", "#", "g"], sps=[[4, 5], [1, 1]]), dict(W=4, H=2, alpha=[".", "#", "g"], sps=[[1, 2]]),
-                 dict(W=5, H=1, alpha=full, sps=[[1, 2], [0, 1]])]
+        fams = [dict(W=w, H=h, alpha=full, sps=sps) for (w, h) in [(1, 1), (2, 1), (1, 2), (3, 1), (1, 3)]]
+        fams += [dict(W=3, H=2, alpha=full, sps=sps), dict(W=2, H=3, alpha=full, sps=[[1, 2]]),
+                dict(W=3, H=3, alpha=[".", "#", "g"], sps=[[4, 5]]), dict(W=4, H=2, alpha=[".", "#", "g"], sps=[[1, 2]]),
+                dict(W=5, H=1, alpha=full, sps=[[1, 2], [0, 1]])]
     return fams
 
 
 def run_mc(ctx):
-    return run_tlc(ctx.workdir / "mc", "C20_GridWorld", GW_CFG, files={"batch.json": mc_families(ctx.tier)},
-                   env={"BATCH_FILE": "batch.json", "MODE": "mc"}, workers=4 if ctx.tier == "quick" else 10,
-                   coverage=(ctx.tier == "thorough"), timeout=3000)
+    """quick: the small families.  thorough: the small families with per-action coverage (vacuity is
+    visible in the evidence), then the big families without (coverage slows TLC down 2-3x)."""
+    # TLC's coverage bookkeeping runs out of memory on the nested operators of the shared MDP oracle, so the
+    # coverage run leaves that one invariant out; it is evaluated on the same layouts in the other run
+    cfg = GW_CFG if ctx.tier == "quick" else GW_CFG.replace("INVARIANT ValueAgreesWithMDPOracle\n", "")
+    small = run_tlc(ctx.workdir / "mc", "C20_GridWorld", cfg, files={"batch.json": mc_families("quick")},
+                    env={"BATCH_FILE": "batch.json", "MODE": "mc"}, workers=4 if ctx.tier == "quick" else 8,
+                    coverage=(ctx.tier == "thorough"), timeout=3000)
+    if ctx.tier == "quick":
+        return [small]
+    big = run_tlc(ctx.workdir / "mcbig", "C20_GridWorld", GW_CFG, files={"batch.json": mc_families("thorough")},
+                  env={"BATCH_FILE": "batch.json", "MODE": "mc"}, workers=10, timeout=3000)
+    return [small, big]
 
 
 def run(ctx):
@@ -1225,23 +1253,31 @@ def run(ctx):
     gw = gw_cases(rng, ctx.tier)
     doms = dom_cases(rng, ctx.tier)
     t1 = time.time()
-    dumps = observe_all(gw + doms)         # fork the worker pool before any thread exists
-    ctx.extra["timing_s"] = {"import_and_generate": round(t1 - t0, 1), "real_code": round(time.time() - t1, 1)}
+    pool = make_pool()                     # the workers are forked here, before any thread exists
     mc = Background(run_mc, ctx)
+    chunk = 4000
+    single = len(gw) + len(doms) <= chunk
     try:
-        chunk = 4000
-        if len(gw) + len(doms) <= chunk:
-            judge_all(ctx, gw, doms, dumps=dumps)
+        if single:                         # all TLC runs that only need the cases start right away
+            bg_t = Background(tlc_gridworld_tables, ctx.workdir / "emit", gw, 5)
+            bg_d = Background(tlc_domain_tables, ctx.workdir / "dom", doms, 4)
+        dumps = observe_all(gw + doms, pool)
+        pool.close()
+        ctx.extra["timing_s"] = {"import_and_generate": round(t1 - t0, 1), "real_code": round(time.time() - t1, 1)}
+        if single:
+            judge_all(ctx, gw, doms, dumps=dumps, tables=use_gridworld_tables(ctx, bg_t.get()), dtables=use_domain_tables(ctx, bg_d.get()))
         else:
             for k in range(0, len(gw), chunk):
                 judge_all(ctx, gw[k:k + chunk], [], dumps=dumps[k:k + chunk])
             for k in range(0, len(doms), chunk):
                 judge_all(ctx, [], doms[k:k + chunk], dumps=dumps[len(gw) + k:len(gw) + k + chunk])
     finally:
-        res = mc.get()
-    ctx.add_tlc(res, "mc: GridWorld reference machine over every layout of the small sizes x success probabilities x every walk")
-    if res.violated:
-        raise TLCFailure(f"design-level invariant violated in C20_GridWorld (mc): {sorted(set(res.violated))}\n" + (res.traces[0][:3000] if res.traces else ""))
+        pool.terminate()
+        mcs = mc.get()
+    for res in mcs:
+        ctx.add_tlc(res, "mc: GridWorld reference machine over every layout of the listed sizes x success probabilities x every walk")
+        if res.violated:
+            raise TLCFailure(f"design-level invariant violated in C20_GridWorld (mc): {sorted(set(res.violated))}\n" + (res.traces[0][:3000] if res.traces else ""))
 
 
 def replay(ctx, case):
